@@ -426,11 +426,18 @@ func (i *Inst) runTunUser(s *FrontScript, tw *TraceWriter, rng *rand.Rand) error
 	sort.Strings(mechs)
 	mark := i.P.Mark()
 	t, rep, err := i.Open(oo)
-	if err != nil {
-		return fmt.Errorf("open: %w", err)
-	}
-	if t == nil {
-		return fmt.Errorf("open refused: %d", rep.Status)
+	if err != nil || t == nil {
+		if !i.P.Alive() {
+			return fmt.Errorf("open: %v", err)
+		}
+		// right credentials did not get a tunnel (or not in the way the mechanism works): recorded, judged by the spec
+		st := 0
+		if rep != nil {
+			st = rep.Status
+		}
+		tw.Line(M{"ev": "tunuser", "script": s.ID, "cls": strings.Join(mechs, "+"), "mechs": mechs, "transport": s.Transport, "scheme": s.Scheme, "confirmed": user,
+			"seen": []string{fmt.Sprintf("<no tunnel: status %d %v>", st, err)}, "interf": []string{}, "ended": true})
+		return nil
 	}
 	defer t.Close()
 	for k, st := range s.Interf {
